@@ -249,6 +249,9 @@ def tridonic_case(seed, part, i, res):
     wit = {"seed": seed, "part": part, "case": i, "reports": [(t_, k, hex(v)) for t_, k, w_, v in all_reports], "subscribers": subs,
            "own": [str(c) for c in own]}
     try:
+        if simlib.detached(out):
+            res.inconclusive.append('harness detached: ' + str(out))
+            return
         if stalled or out is not True:
             res.violation("C20/tridonic/stall-or-crash", f"simulation ended with {'a stall' if stalled else repr(out)}", wit)
             return
@@ -452,6 +455,9 @@ def serial_case(driver, seed, part, i, res):
     wit = {"driver": driver, "seed": seed, "part": part, "case": i, "frames": [(t_, hex(v_)) for t_, w_, v_ in frames], "subscribers": subs,
            "own": [str(c) for c in own]}
     try:
+        if simlib.detached(out):
+            res.inconclusive.append('harness detached: ' + str(out))
+            return
         if stalled or out is not True:
             res.violation(f"C20/{driver}/stall-or-crash", f"simulation ended with {'a stall' if stalled else repr(out)}", wit)
             return
